@@ -2,6 +2,7 @@ package sym
 
 import (
 	"fmt"
+	"math/big"
 	"os"
 	"go/types"
 	"sort"
@@ -81,6 +82,7 @@ type Report struct {
 	Solver        SolverStats
 	Wall          time.Duration
 	MaxUnwindSeen int
+	WitnessHits   int
 	ObligationTags map[string]int
 }
 
@@ -328,6 +330,55 @@ func (e *Engine) stackTrace(st *State) string {
 
 // ---------- deciding symbolic conditions ----------
 
+// Witness is a model known to satisfy a state's path condition; it lets most
+// branch-feasibility questions be answered by evaluation instead of a query.
+type Witness struct {
+	m     Model
+	cache map[int]*big.Int
+}
+
+func (e *Engine) evalBool(w *Witness, t *Term) bool {
+	return e.ts.Eval(t, w.m, w.cache).Sign() != 0
+}
+
+// addPC extends the path condition and drops witnesses that no longer satisfy it.
+func (e *Engine) addPC(st *State, c *Term) {
+	if c.IsTrue() {
+		return
+	}
+	st.pc = append(st.pc, c)
+	if len(st.wit) > 0 {
+		kept := st.wit[:0:0]
+		for _, w := range st.wit {
+			if e.evalBool(w, c) {
+				kept = append(kept, w)
+			}
+		}
+		st.wit = kept
+	}
+}
+
+// checkW asks the solver for pc ∧ c and, on sat, returns a verified witness.
+func (e *Engine) checkW(st *State, c *Term) (Result, *Witness) {
+	r, m := e.solver.Check(st.pc, c, e.nondetVars(st))
+	if r != Sat || m == nil {
+		return r, nil
+	}
+	w := &Witness{m: m, cache: map[int]*big.Int{}}
+	ok := e.evalBool(w, c)
+	for _, p := range st.pc {
+		if !ok {
+			break
+		}
+		ok = e.evalBool(w, p)
+	}
+	if !ok {
+		e.rep.Models["diagnostic: solver model did not evaluate to true in the engine (witness discarded)"]++
+		return r, nil
+	}
+	return r, w
+}
+
 func (e *Engine) feasible(st *State, c *Term) Result {
 	if c.IsTrue() {
 		return Sat
@@ -335,7 +386,16 @@ func (e *Engine) feasible(st *State, c *Term) Result {
 	if c.IsFalse() {
 		return Unsat
 	}
-	r, _ := e.solver.Check(st.pc, c, nil)
+	for _, w := range st.wit {
+		if e.evalBool(w, c) {
+			e.rep.WitnessHits++
+			return Sat
+		}
+	}
+	r, w := e.checkW(st, c)
+	if w != nil && len(st.wit) < 6 {
+		st.wit = append(st.wit, w)
+	}
 	return r
 }
 
@@ -360,13 +420,13 @@ func (e *Engine) decide(st *State, cond *Term) bool {
 	rt := e.feasible(st, cond)
 	if rt == Unsat {
 		st.known[cond.ID] = e.ts.False
-		st.pc = append(st.pc, e.ts.Not(cond))
+		e.addPC(st, e.ts.Not(cond))
 		return false
 	}
 	rf := e.feasible(st, e.ts.Not(cond))
 	if rf == Unsat {
 		st.known[cond.ID] = e.ts.True
-		st.pc = append(st.pc, cond)
+		e.addPC(st, cond)
 		return true
 	}
 	if rt == Unknown || rf == Unknown {
@@ -390,10 +450,10 @@ func (e *Engine) decide(st *State, cond *Term) bool {
 	e.rep.Forks++
 	cl := st.clone(e)
 	cl.known[cond.ID] = e.ts.False
-	cl.pc = append(cl.pc, e.ts.Not(cond))
+	e.addPC(cl, e.ts.Not(cond))
 	e.work = append(e.work, cl)
 	st.known[cond.ID] = e.ts.True
-	st.pc = append(st.pc, cond)
+	e.addPC(st, cond)
 	return true
 }
 
@@ -435,15 +495,11 @@ func (e *Engine) concretize(st *State, t *Term) *Term {
 		e.rep.Forks++
 		cl := st.clone(e)
 		cl.known[t.ID] = v
-		cl.pc = append(cl.pc, e.ts.Eq(t, v))
+		e.addPC(cl, e.ts.Eq(t, v))
 		e.work = append(e.work, cl)
 	}
 	st.known[t.ID] = vals[0]
-	if len(vals) > 1 {
-		st.pc = append(st.pc, e.ts.Eq(t, vals[0]))
-	} else {
-		st.pc = append(st.pc, e.ts.Eq(t, vals[0]))
-	}
+	e.addPC(st, e.ts.Eq(t, vals[0]))
 	return vals[0]
 }
 
@@ -545,5 +601,5 @@ func (e *Engine) obligation(st *State, tag string, cond *Term, kind string) {
 		panic(sigDead{"violation"})
 	}
 	st.known[cond.ID] = e.ts.True
-	st.pc = append(st.pc, cond)
+	e.addPC(st, cond)
 }
